@@ -87,8 +87,10 @@ def hx(b):
     return bytes(b).hex() if len(b) else "-"
 
 
-def ref_decode(cfg, data, quirks=False, known_good=None, gray_accept=go_valid_code, handlers=True):
-    """cfg: dict server, comp, rl, dl."""
+def ref_decode(cfg, data, quirks=False, known_good=None, gray_accept=go_valid_code, handlers=True,
+               trust_zlib=False):
+    """cfg: dict server, comp, rl, dl.  known_good: deflate payloads known to be valid (others are not compared
+    exactly) unless trust_zlib."""
     R = Ref()
     server, comp, rl, dl = cfg["server"], cfg["comp"], cfg["rl"], cfg["dl"]
     i = 0
@@ -240,8 +242,9 @@ def ref_decode(cfg, data, quirks=False, known_good=None, gray_accept=go_valid_co
         if f["compressed"]:
             R.kinds.add("compressed")
             k = acc + TAIL
-            good = known_good is not None and acc in known_good
+            good = (known_good is not None and acc in known_good) or trust_zlib
             out = inflate_stream(k) if good else None
+            good = good and out is not None
             R.inf[k] = out
             if not good:
                 # corrupt / unknown deflate data: zlib and Go's flate need not agree on it
